@@ -1,5 +1,5 @@
 (* C03 tie T: leaf functions regenerated from the current source (coq/gen/Gen_C03.v, tools/cxx2v.py) equal the model leafs *)
-From CppcmsV Require Import Base.Tac Base.CSem Base.CSemFacts C03.Defs gen.Gen_C03.
+From CppcmsV Require Import Base.Tac Base.CSem Base.CSemFacts C03.Defs gen.Gen_C03 gen.Gen_C03_fcgi gen.Gen_C03_sock.
 Local Open Scope N_scope.
 
 (* async_io_buf::next_size (growth policy of the fully buffered asynchronous device), for all sizes below 2^63 *)
@@ -12,3 +12,9 @@ Proof.
   { assert (2 ^ 63 = 9223372036854775808) by reflexivity. lia. }
   rewrite wrapu64_small by exact Hb. lia.
 Qed.
+
+(* the FastCGI record size limit and the iovec limit of the socket are the constants of the current source *)
+Lemma link_max_packet_len : g_max_packet_len = Z.of_N max_packet_len.
+Proof. reflexivity. Qed.
+Lemma link_max_vec_size : g_max_vec_size = Z.of_nat max_vec.
+Proof. reflexivity. Qed.
